@@ -56,7 +56,7 @@ macro_rules! eq_only {
 }
 
 fn pairs<B: Backend, B2: Backend>(cx: &mut Ctx, x: &[u8], y: &[u8]) {
-    let (sx, sy) = (std::str::from_utf8(x).unwrap(), std::str::from_utf8(y).unwrap());
+    let (sx, sy) = (std::str::from_utf8(x).ok(), std::str::from_utf8(y).ok());
     let (ox, oy) = (OsStr::from_bytes(x), OsStr::from_bytes(y));
     let (px, py) = (Path::new(ox), Path::new(oy));
     let beq = x == y; let bord = x.cmp(y);
@@ -72,18 +72,24 @@ fn pairs<B: Backend, B2: Backend>(cx: &mut Ctx, x: &[u8], y: &[u8]) {
     both!(cx, "HipByt", "HipByt<B2>", hb, HipByt::<'static, B2>::borrowed(Box::leak(y.to_vec().into_boxed_slice())), beq, bord, x, y);
     both!(cx, "HipByt", "BStr", hb, *bstr::BStr::new(y), beq, bord, x, y);
     both!(cx, "HipByt", "BString", hb, bstr::BString::from(y), beq, bord, x, y);
-    // ---- HipStr
-    let hs: HipStr<'static, B> = HipStr::from(sx);
-    both!(cx, "HipStr", "str", hs, *sy, beq, bord, x, y);
-    both!(cx, "HipStr", "&str", hs, sy, beq, bord, x, y);
-    both!(cx, "HipStr", "String", hs, sy.to_string(), beq, bord, x, y);
-    eq_only!(cx, "HipStr", "Box<str>", hs, Box::<str>::from(sy), beq, x, y);
-    eq_only!(cx, "HipStr", "Cow<str>", hs, Cow::Borrowed(sy), beq, x, y);
-    both!(cx, "HipStr", "OsStr", hs, *oy, beq, bord, x, y);
-    both!(cx, "HipStr", "&OsStr", hs, oy, beq, bord, x, y);
-    both!(cx, "HipStr", "OsString", hs, oy.to_os_string(), beq, bord, x, y);
-    both!(cx, "HipStr", "HipStr<B2>", hs, HipStr::<'static, B2>::from(sy), beq, bord, x, y);
-    both!(cx, "HipStr", "BStr", hs, *bstr::BStr::new(y), beq, bord, x, y);
+    // ---- HipStr (x well-formed; the OsStr / BStr operands may hold any bytes)
+    if let Some(sx) = sx {
+        let hs: HipStr<'static, B> = HipStr::from(sx);
+        if let Some(sy) = sy {
+            both!(cx, "HipStr", "str", hs, *sy, beq, bord, x, y);
+            both!(cx, "HipStr", "&str", hs, sy, beq, bord, x, y);
+            both!(cx, "HipStr", "String", hs, sy.to_string(), beq, bord, x, y);
+            eq_only!(cx, "HipStr", "Box<str>", hs, Box::<str>::from(sy), beq, x, y);
+            eq_only!(cx, "HipStr", "Cow<str>", hs, Cow::Borrowed(sy), beq, x, y);
+            both!(cx, "HipStr", "HipStr<B2>", hs, HipStr::<'static, B2>::from(sy), beq, bord, x, y);
+            cx.sum.evaluations += 1;
+                    if beq && h(&hs) != h(&HipStr::<B2>::from(sy)) { cx.bad(format!("hash of equal HipStr values bk={} x={}", cx.bk, hex(x)), "differs".into(), "equal".into()); }
+        }
+        both!(cx, "HipStr", "OsStr", hs, *oy, beq, bord, x, y);
+        both!(cx, "HipStr", "&OsStr", hs, oy, beq, bord, x, y);
+        both!(cx, "HipStr", "OsString", hs, oy.to_os_string(), beq, bord, x, y);
+        both!(cx, "HipStr", "BStr", hs, *bstr::BStr::new(y), beq, bord, x, y);
+    }
     // ---- HipOsStr: byte-wise against OsStr-family, path-wise against Path-family (as std's OsStr does)
     let ho: HipOsStr<'static, B> = HipOsStr::from(ox);
     both!(cx, "HipOsStr", "OsStr", ho, *oy, beq, bord, x, y);
@@ -110,13 +116,12 @@ fn pairs<B: Backend, B2: Backend>(cx: &mut Ctx, x: &[u8], y: &[u8]) {
     both!(cx, "HipPath", "Cow<OsStr>", hp, Cow::Borrowed(oy), peq, pord, x, y);
     both!(cx, "HipPath", "HipPath<B2>", hp, HipPath::<'static, B2>::from(py), peq, pord, x, y);
     // Ord (same type)
-    cx.sum.evaluations += 4;
+    cx.sum.evaluations += 3;
     if hb.cmp(&HipByt::<B>::from(y)) != bord { cx.bad(format!("cmp HipByt Ord bk={} x={} y={}", cx.bk, hex(x), hex(y)), "differs".into(), format!("{:?}", bord)); }
-    if hs.cmp(&HipStr::<B>::from(sy)) != bord { cx.bad(format!("cmp HipStr Ord bk={} x={} y={}", cx.bk, hex(x), hex(y)), "differs".into(), format!("{:?}", bord)); }
     if ho.cmp(&HipOsStr::<B>::from(oy)) != bord { cx.bad(format!("cmp HipOsStr Ord bk={} x={} y={}", cx.bk, hex(x), hex(y)), "differs".into(), format!("{:?}", bord)); }
     if hp.cmp(&HipPath::<B>::from(py)) != pord { cx.bad(format!("cmp HipPath Ord bk={} x={} y={}", cx.bk, hex(x), hex(y)), "differs".into(), format!("{:?}", pord)); }
     // equal values hash equally
-    if beq { if h(&hb) != h(&HipByt::<B2>::from(y)) || h(&hs) != h(&HipStr::<B2>::from(sy)) || h(&ho) != h(&HipOsStr::<B2>::from(oy)) { cx.bad(format!("hash of equal values bk={} x={}", cx.bk, hex(x)), "differs".into(), "equal".into()); } }
+    if beq { if h(&hb) != h(&HipByt::<B2>::from(y)) || h(&ho) != h(&HipOsStr::<B2>::from(oy)) { cx.bad(format!("hash of equal values bk={} x={}", cx.bk, hex(x)), "differs".into(), "equal".into()); } }
     if peq && h(&hp) != h(&HipPath::<B2>::from(py)) { cx.bad(format!("hash of equal HipPath values bk={} x={} y={}", cx.bk, hex(x), hex(y)), "differs".into(), "equal".into()); }
     // Borrow: a lookup by the borrowed form finds the entry exactly when the borrowed forms are equal
     macro_rules! lookup { ($owner:expr, $oname:expr, $tname:expr, $key:expr, $T:ty) => {{
@@ -135,8 +140,11 @@ fn pairs<B: Backend, B2: Backend>(cx: &mut Ctx, x: &[u8], y: &[u8]) {
     }}; }
     lookup!(hb, "HipByt", "[u8]", y, [u8]);
     lookup!(hb, "HipByt", "BStr", bstr::BStr::new(y), bstr::BStr);
-    lookup!(hs, "HipStr", "str", sy, str);
-    lookup!(hs, "HipStr", "BStr", bstr::BStr::new(y), bstr::BStr);
+    if let Some(sx) = sx {
+        let hs: HipStr<'static, B> = HipStr::from(sx);
+        if let Some(sy) = sy { lookup!(hs, "HipStr", "str", sy, str); }
+        lookup!(hs, "HipStr", "BStr", bstr::BStr::new(y), bstr::BStr);
+    }
     lookup!(ho, "HipOsStr", "OsStr", oy, OsStr);
     lookup!(hp, "HipPath", "Path", py, Path);
     lookup!(hp, "HipPath", "OsStr", oy, OsStr);
@@ -193,6 +201,8 @@ pub fn run(out_dir: &std::path::Path, tier: &str, _seed: u64, _rest: &[String]) 
     // heap-sized variants with common prefixes
     let long = "a".repeat(30);
     for tail in ["", "/", "/b", "/./b", "b", "/../b"] { strs.push(format!("{}{}", long, tail).into_bytes()); strs.push(format!("/{}{}", long, tail).into_bytes()); }
+    // operands that are not UTF-8 (OsStr / Path / byte-string families; a HipStr can still be compared WITH them)
+    for t in [&b"\x80"[..], b"a\x80", b"\xff", b"a/\xff", b"\xc3"] { strs.push(t.to_vec()); }
     for x in &strs {
         for y in &strs {
             // model cases: std's verdict in both kinds
